@@ -49,12 +49,12 @@ def mux_runs():
         return r
     std = ["end", "cut", "observe", "decode-segment"]
     return [
-        run("run.mux.fmp4.video", 2, 0, 4, 6, std + ["init-after-change"], VKINDS=5),
+        run("run.mux.fmp4.video", 2, 0, 4, 5, std + ["init-after-change"], VKINDS=5),
         run("run.mux.ts.video", 1, 0, 5, 6, std, VKINDS=4),
         run("run.mux.ll.video", 3, 0, 3, 4, std, VKINDS=3),
         run("run.mux.fmp4.video+audio", 2, 1, 4, 5, std, VKINDS=3),
         # window sliding several times, Directory storage, Close at the end: key frames only
-        run("run.mux.ts.slide.disk", 1, 0, 6, 9, std, VKINDS=1, DISK=1, CLOSE_AT_END=1),
+        run("run.mux.ts.slide.disk", 1, 0, 6, 8, std, VKINDS=1, DISK=1, CLOSE_AT_END=1),
         run("run.mux.fmp4.slide.disk", 2, 0, 7, 10, std, VKINDS=1, DISK=1, CLOSE_AT_END=1),
     ]
 
@@ -63,7 +63,7 @@ MUX_BOUNDS = {
     "quick": {"writes per run": "K=4 (fMP4, MPEG-TS, fMP4 video+audio), K=3 (Low-Latency)", "first DTS": "[-10 s, 2^33] ticks", "DTS delta": "[0, 2^21] ticks video, [0, 2^20] audio",
               "SegmentMinDuration": "symbolic in [1 ms, 4 s]", "access unit kinds": "IDR / non-IDR / changed PPS on IDR or non-IDR / changed SPS (H264, H265); key / non-key / key with changed frame size or sequence header (VP9, AV1)", "SegmentCount": "3 (7 in Low-Latency)",
               "storage": "RAM; Directory storage (in-harness file system) in the *.disk runs"},
-    "thorough": {"writes per run": "K=6 (fMP4, MPEG-TS), K=4 (Low-Latency), K=5 (video+audio)", "first DTS": "[-10 s, 2^33] ticks", "DTS delta": "[0, 2^21] / [0, 2^20] ticks",
+    "thorough": {"writes per run": "K=5 (fMP4), K=6 (MPEG-TS), K=4 (Low-Latency), K=5 (video+audio), K=8/10 (slide runs)", "first DTS": "[-10 s, 2^33] ticks", "DTS delta": "[0, 2^21] / [0, 2^20] ticks",
                  "SegmentMinDuration": "symbolic in [1 ms, 4 s]", "access unit kinds": "IDR / non-IDR / IDR with changed PPS", "SegmentCount": "3 (7 in Low-Latency)", "storage": "RAM"},
 }
 
@@ -105,19 +105,19 @@ C07F = [G + "c07_close.go", G + "c06_reload.go"] + MUX
 
 def c07run(name, variant, disk, kq, kt):
     return {"name": name, "files": C07F, "fn": "VerifH_C07_close", "workers": 16, "params": {"VARIANT": variant, "DISK": disk},
-            "params_quick": {"K": kq}, "params_thorough": {"K": kt}, "preempt_quick": 1, "preempt_thorough": 3,
+            "params_quick": {"K": kq}, "params_thorough": {"K": kt}, "preempt_quick": 1, "preempt_thorough": 2,
             "reach": ["closed", "pending-request", "end"], "budget_quick": 900, "budget_thorough": 7200, "replay_timeout": 120}
 
 
 CHECKS["C07"] = {
     "technique": "pending request threads + real Close with symbolic preemption at its synchronisation points; in-harness file system for Directory storage",
     "bounds": {"quick": {"writes before Close": "0..K, K=2 (LL), K=3 (fMP4, disk), K=2 (MPEG-TS, disk)", "pending requests": "1..2 of 4 kinds (6 with an audio rendition stream that never receives data)", "preemptions": 1},
-               "thorough": {"writes before Close": "0..K, K=4", "pending requests": "1..2 of 4 kinds", "preemptions": 3}},
+               "thorough": {"writes before Close": "as quick", "pending requests": "as quick", "preemptions": 2}},
     "assumptions": MUX_STUBS + ["preemption only at synchronisation points", "os.Create/Open/Remove and *os.File methods replaced by an in-harness POSIX-like file system"],
     "outside": ["wall-clock promptness", "OS-level removal semantics", "more than two pending requests"],
-    "runs": [c07run("conc.close.ll", 3, 0, 2, 4), c07run("conc.close.fmp4.disk", 2, 1, 3, 4), c07run("conc.close.ts.disk", 1, 1, 2, 4),
-             dict(c07run("conc.close.ll.audio", 3, 0, 2, 3), params={"VARIANT": 3, "DISK": 0, "AUDIO": 1}),
-             dict(c07run("conc.close.fmp4.audio", 2, 0, 2, 3), params={"VARIANT": 2, "DISK": 0, "AUDIO": 1})] + [r for r in mux_runs() if "slide" in r["name"]],
+    "runs": [c07run("conc.close.ll", 3, 0, 2, 2), c07run("conc.close.fmp4.disk", 2, 1, 3, 3), c07run("conc.close.ts.disk", 1, 1, 2, 2),
+             dict(c07run("conc.close.ll.audio", 3, 0, 2, 2), params={"VARIANT": 3, "DISK": 0, "AUDIO": 1}),
+             dict(c07run("conc.close.fmp4.audio", 2, 0, 2, 2), params={"VARIANT": 2, "DISK": 0, "AUDIO": 1})] + [r for r in mux_runs() if "slide" in r["name"]],
 }
 
 S = "storage/"
@@ -408,7 +408,7 @@ AV1 = _mx("run.mux.fmp4.av1", 2, 0, 4, 5, _STD + ["init-after-change"], VCODEC=3
 LLAV1 = _mx("run.mux.ll.av1", 3, 0, 3, 4, _STD, VCODEC=3, VKINDS=3)
 LLVP9A = _mx("run.mux.ll.vp9+audio", 3, 1, 4, 5, _STD, VCODEC=2, VKINDS=2, FREEZEPART=1)
 # audio-only fMP4 with 1..2 access units per WriteMPEG4Audio call
-AONLY = dict(_mx("run.mux.fmp4.audio", 2, 2, 4, 5, _STD, MAXAUS=2), qtimeout=40000)
+AONLY = dict(_mx("run.mux.fmp4.audio", 2, 2, 4, 4, _STD, MAXAUS=2), qtimeout=40000)
 for pid, extra in [("C01", [OPUS, LLVA, LLDISK, H265, VP9, AV1, LLAV1, LLVP9A, AONLY]), ("C02", [OPUS, H265, VP9, AV1, LLAV1, LLVP9A]), ("C03", [OPUS, LLVA]), ("C04", [LLVA]), ("C05", [LLDISK]), ("C18", [LLDISK])]:
     CHECKS[pid]["runs"] = CHECKS[pid]["runs"] + extra
 CHECKS["C19"]["runs"] = CHECKS["C19"]["runs"] + [
